@@ -44,6 +44,11 @@ func analyze(s *core.Spec) *refAnalysis {
 	a := &refAnalysis{NodeCount: len(s.Nodes)}
 	terminal, targeted, empty, missing, vars, interps := map[string]bool{}, map[string]bool{}, map[string]bool{}, map[string]bool{}, map[string]bool{}, map[string]bool{}
 	for name, n := range s.Nodes {
+		if n == nil {
+			// a node without a body (uncompiled spec): it exists, and it ends the machine's way
+			terminal[name] = true
+			continue
+		}
 		if n.Action != nil || n.ActionSource != nil {
 			a.Actions++
 			if n.ActionSource != nil {
@@ -754,8 +759,9 @@ func Run(cfg fw.Config, rec *fw.Rec) {
 			var rb, rm closer
 			var rhb bytes.Buffer
 			var e1, e2, e3, e4 error
+			var rawAn *tools.SpecAnalysis
 			if rec.Guard("C20:"+stratum+":uncompiled", replay, func() {
-				_, e1 = tools.Analyze(raw)
+				rawAn, e1 = tools.Analyze(raw)
 				e2 = tools.Dot(raw, &rb, "", "")
 				e3 = tools.Mermaid(raw, &rm, nil, "", "")
 				e4 = tools.RenderSpecPage(raw, &rhb, nil, false)
@@ -767,6 +773,11 @@ func Run(cfg fw.Config, rec *fw.Rec) {
 				for _, e := range []error{e1, e2, e3, e4} {
 					if e != nil && why == "" {
 						why = "error: " + e.Error()
+					}
+				}
+				if why == "" && rawAn != nil {
+					if w := checkAnalysis(raw, rawAn); w != "" {
+						why = "analysis: " + w
 					}
 				}
 				if why == "" {
